@@ -148,7 +148,7 @@ theorem ns_step (cfg : Cfg) (s : St) (op : Op) (hst : StoreNoPubrec s)
   | setRespTimeout ms => rfl
   | acquire => rfl
   | register id => rfl
-  | release id => exact ns_releaseIfUsed _ id
+  | release id => show nsOf (releasePacketId _ id).ev = _; rw [releasePacketId_ev']; exact ns_releaseIfUsed _ id
   | erase id => exact ns_eraseStoredPublish _ id
   | restoreHandled ids => rfl
   | restorePackets ps => show nsOf (restorePackets _ ps).ev = _; rw [ns_restorePackets]; rfl
